@@ -7,6 +7,7 @@ func main() {
 		"gen": func(a []string) int { return RunGen(gens, a) },
 		"c05": c05,
 		"c06": c06,
+		"c15": c15,
 		"c16": c16,
 	})
 }
